@@ -7,6 +7,7 @@ import (
 	"net"
 	"sort"
 	"strconv"
+	"sync"
 	"time"
 
 	"google.golang.org/grpc"
@@ -30,6 +31,10 @@ type RawNode struct {
 
 	// the default channel
 	channel *channel
+
+	// connMut protects conn and closed; the channel may dial again while the node is being closed.
+	connMut sync.Mutex
+	closed  bool
 }
 
 // NewRawNode returns a new node for the provided address.
@@ -73,6 +78,11 @@ func (n *RawNode) connect(mgr *RawManager) error {
 
 // dial the node and close the current connection.
 func (n *RawNode) dial() error {
+	n.connMut.Lock()
+	defer n.connMut.Unlock()
+	if n.closed {
+		return fmt.Errorf("node closed")
+	}
 	if n.conn != nil {
 		// close the current connection before dialing again.
 		n.conn.Close()
@@ -108,6 +118,9 @@ func (n *RawNode) close() error {
 		// cancel is nil if the manager was told not to connect to its nodes
 		n.cancel()
 	}
+	n.connMut.Lock()
+	defer n.connMut.Unlock()
+	n.closed = true
 	if n.conn == nil {
 		return nil
 	}
